@@ -82,7 +82,11 @@ SelectedOps(doc) == IF doc.opName = "" THEN doc.ops
 Reachable(doc) ==
   LET ops == SelectedOps(doc)
       names == UNION {ReachableFragNames(doc, ops[i].sel) : i \in DOMAIN ops}
-  IN [ops |-> ops, frags |-> SelectSeq(doc.frags, LAMBDA f : f.name \in names), opName |-> doc.opName]
+      \* of several definitions with one name only the first is ever reached (fragment name uniqueness, 5.5.1.1, concerns a
+      \* definition that is discarded)
+      first == {i \in DOMAIN doc.frags : doc.frags[i].name \in names /\ \A j \in 1..(i - 1) : doc.frags[j].name # doc.frags[i].name}
+  IN [ops |-> ops, frags |-> [k \in 1..Cardinality(first) |-> doc.frags[CHOOSE i \in first : Cardinality({j \in first : j < i}) = k - 1]],
+      opName |-> doc.opName]
 
 ----------------------------------------------------------------------------
 \* Paths.  A path addresses a selection inside a selection set: <<i1, i2, ...>> = sel[i1].sel[i2]...
